@@ -1,10 +1,12 @@
 (* Properties/C09.v — Rust-side options never change the JSON wire format.
    Proved for all inputs: the wire names (and the serde shape of a field) the generator emits do not
-   depend on normalization or on any other option.  That derive lists, visibility, the serde path,
-   the scalars module and extern enums do not change acceptance / output is checked by compiling and
-   running the same vectors under every setting (RunC09.prop_c09), with Serde.v predicting the
-   same (model_neutral): `partial`. *)
-From GC Require Import Base Rust Json TypeExpr Heck Naming Enums EnumsProofs Schema Query Attrs Codegen Serde NeutralProofs.
+   depend on normalization or on any other option; and for ALL programs: derive lists, visibility,
+   the serde path, the scalars module and the query-file path change nothing serde looks at
+   (NeutralAll.v).  That normalization (which renames items) and extern enums (which removes
+   items) do not change acceptance / output for whole programs is checked by compiling and running
+   the same vectors under every setting (RunC09.prop_c09), with Serde.v predicting the same
+   (model_neutral): `partial`. *)
+From GC Require Import Base Rust Json TypeExpr Heck Naming Enums EnumsProofs Schema Query Attrs Codegen Serde NeutralProofs NeutralAll.
 
 Theorem C09_response_key : forall o g rust ft quals fl depr boxed f,
   render_field o (Some g) rust ft quals fl depr boxed = Some f -> field_wire f = g.
@@ -43,6 +45,43 @@ Theorem C09_enum_value_read : forall tbl norm camel derives name values,
   item_deser (enum_item tbl norm camel derives name values) (JStr v) = Some (EVariant (enum_variant_ident tbl norm camel v)).
 Proof. exact deser_value. Qed.
 
+(* ---------- all programs at once: extra derives (responses and variables), module visibility,
+   the serde path, the custom-scalars module and the query-file path.
+   `rust_side_equal o1 o2`: the two option sets agree on everything else.
+   For every schema, fragment set and operation the generator model either fails for both or
+   emits items under which EVERY JSON is read alike (accepted / rejected, same value) at every
+   type, and EVERY value is written alike: Serde.deser / Serde.ser never look at what those
+   options change (derive lists, `serde(crate = ..)`, alias paths), and nothing else changes. *)
+Theorem C09_rust_side_options_all_programs : forall henv s frs o1 o2 op,
+  rust_side_equal o1 o2 ->
+  match operation_items s frs o1 op, operation_items s frs o2 op with
+  | Some i1, Some i2 =>
+      (forall fuel t j, deser henv fuel i1 t j = deser henv fuel i2 t j) /\
+      (forall fuel t v, ser fuel i1 t v = ser fuel i2 t v)
+  | None, None => True
+  | _, _ => False
+  end.
+Proof. exact wire_neutral. Qed.
+
+(* ... and the whole run (operation choice, module skeleton): same outcome class, same modules up
+   to visibility, `use` lines, include path and the erased parts of the items; in particular the
+   same OPERATION_NAME, QUERY, module / struct names and build_query wiring *)
+Theorem C09_generate_rust_side_options : forall s doc o1 o2 text,
+  rust_side_equal o1 o2 ->
+  result_map (map erase_module) (generate s doc o1 text) =
+  result_map (map erase_module) (generate s doc o2 text).
+Proof. exact generate_rust_side. Qed.
+
+(* non-vacuity: option sets differing in all six Rust-side options are related *)
+Example C09_rust_side_example :
+  rust_side_equal
+    (mkOpts true None None (Some "Debug,Clone") (Some "PartialEq") None false (Some "crate::scalars") [] false false
+            (Some "my::serde") (Some VPub) (Some "q.graphql"))
+    (mkOpts true None None None None None false None [] false false None None None).
+Proof. exact rust_side_example. Qed.
+
+Print Assumptions C09_rust_side_options_all_programs.
+Print Assumptions C09_generate_rust_side_options.
 Print Assumptions C09_response_key.
 Print Assumptions C09_response_key_neutral.
 Print Assumptions C09_response_shape_neutral.
